@@ -20,7 +20,7 @@ RULE = (
     "counter of the name format at its boundary; <= 1 preemption) - every interleaving at CPython bytecode granularity inside the library with "
     "at most 2 preemptions (CHESS-style iterative bounding: 0, 1, 2), executions always run to completion; uuid.uuid4 "
     "is replaced by an injective fresh-value oracle; oracle: all names pairwise distinct, each starts with its "
-    "requested prefix, each embeds the fresh draw made during its own request; non-trivial = execution with >= 1 "
+    "requested prefix (whether each name embeds the fresh draw of its own request is recorded, not demanded); non-trivial = execution with >= 1 "
     "preemption, or a history with >= 2 requests; distinct = distinct schedules / histories"
 )
 
@@ -92,11 +92,14 @@ def judge(requests):
     for r in requests:
         if not r["name"].startswith(r["prefix"]):
             problems.append(("prefix", f"name {r['name']!r} does not start with requested prefix {r['prefix']!r}"))
-        if not r["draws"]:
-            problems.append(("no-fresh-draw", f"request {r['kind']} drew no fresh value for {r['name']!r}"))
-        elif not any(d in r["name"] for d in r["draws"]):
-            problems.append(("fresh-draw-not-embedded", f"name {r['name']!r} does not embed its own draw {r['draws']}"))
     return problems
+
+
+def embeds_own_draw(requests):
+    """How many names embed a fresh value drawn during their own request (informational: with the uuid4 seam
+    this is what makes uniqueness hold beyond the explored bounds; it is not itself demanded by C19 - an
+    implementation that is unique by other means must not be flagged)."""
+    return sum(1 for r in requests if r["draws"] and any(d in r["name"] for d in r["draws"]))
 
 
 # ----------------------------------------------------------------------------- sequential histories
@@ -151,14 +154,16 @@ def harness(spec, prior=0):
         uuid.uuid4 = fresh
         with sched.patched_locks():
             engines = {"e1": iteration.Engine(name="e1"), "e2": iteration.Engine(name="e2"), "s": sql.Engine(name="s")}
+        sched.coopify(*engines.values())
         out = []
         if prior:
             # request history before the threads start (untraced): brings the 4-digit counter to its boundary
             e1 = engines["e1"]
             tid = threading.get_ident()
             for _ in range(prior):
+                n0 = len(fresh.draws.get(tid, ()))
                 name = e1.get_relation_name("p")
-                out.append({"prefix": "p", "name": name, "draws": fresh.draws[tid][-1:], "kind": "direct"})
+                out.append({"prefix": "p", "name": name, "draws": fresh.draws.get(tid, [])[n0:], "kind": "direct"})
 
         def body(reqs):
             def run():
@@ -191,7 +196,9 @@ THOROUGH_EXTRA = {
 
 
 def _prior(label):
-    return 9998 if "counter boundary" in label else 0
+    if "counter boundary" not in label:
+        return 0
+    return int(label.split(":")[1].split()[0])
 
 
 def _conc_work(arg):
@@ -215,7 +222,11 @@ def _conc_work(arg):
             o2 = sched.replay(harness(spec, prior), p["schedule"])
         finally:
             uuid.uuid4 = real
-        if o1 != o2 or not judge(o1["requests"]):
+        # the verdict must reproduce (raw names may legitimately differ between runs if the library keeps
+        # process-wide state, e.g. a global serial number)
+        k1 = sorted(k for k, _ in judge(o1["requests"]))
+        k2 = sorted(k for k, _ in judge(o2["requests"]))
+        if k1 != k2 or not k1:
             raise RuntimeError(f"schedule {p['schedule']} of harness {label} does not reproduce deterministically")
         v = {
             "kind": kind,
@@ -242,6 +253,7 @@ def run(tier, seed):
         seq.append(_seq_work((d, [()])))
     tasks = [(label, spec, 2) for label, spec in HARNESSES.items()]
     tasks.append(("counter boundary: 9998 prior requests, then 2x2 same engine", HARNESSES["2x2 same engine"], 1 if tier == "quick" else 2))
+    tasks.append(("counter boundary: 9999 prior requests, then 2x2 same engine", HARNESSES["2x2 same engine"], 1 if tier == "quick" else 2))
     tasks.append(("counter boundary: 9998 prior requests, leaf vs materialized", [[("leaf", "e1", "p")], [("materialized", "e1", "p")]], 1))
     if tier == "thorough":
         tasks += [("2x1 bound 3", THOROUGH_EXTRA["2x1 bound 3"], 3), ("3x1 mixed kinds", THOROUGH_EXTRA["3x1 mixed kinds"], 2)]
